@@ -521,13 +521,31 @@ def _bindable(p):
 WELL_KNOWN_PORTS = [20002, 10002, 20003, 10003]
 def well_known_ports():
     """the library's default broadcast ports, if this process can have them all (free and reserved among the running checks)"""
-    got = []
-    for p in WELL_KNOWN_PORTS:
-        if p in _MINE or (_bindable(p) and _reserve(p)):
-            if p not in _MINE: _MINE.insert(0, p)
-            got.append(p)
-    if len(got) == 4 and all(_bindable(p) for p in got): return list(WELL_KNOWN_PORTS)
+    import time as _t
+    for attempt in range(30):            # another check may be using them right now: wait for up to about a minute, holding nothing in between
+        new = []
+        for p in WELL_KNOWN_PORTS:
+            if p in _MINE: continue
+            if _bindable(p) and _reserve(p): new.append(p)
+            else: break
+        if all(p in _MINE or p in new for p in WELL_KNOWN_PORTS):
+            for p in new: _MINE.insert(0, p)
+            if all(_bindable(p) for p in WELL_KNOWN_PORTS): return list(WELL_KNOWN_PORTS)
+            return None                  # reserved, but something outside the checks holds one of them
+        for p in new:                    # not all four: give back what this attempt took
+            try: os.unlink(os.path.join(_PORT_DIR, str(p)))
+            except OSError: pass
+        _t.sleep(1.5 + (os.getpid() % 7) / 10.0)
     return None
+
+
+def release_well_known_ports():
+    """give the default ports back as soon as the stream that needed them is over (other checks wait for them)"""
+    for p in WELL_KNOWN_PORTS:
+        if p in _MINE:
+            _MINE.remove(p)
+            try: os.unlink(os.path.join(_PORT_DIR, str(p)))
+            except OSError: pass
 
 
 def free_udp_ports(n):
